@@ -216,6 +216,20 @@ impl Inst {
         Ok(res)
     }
 
+    /// waits (at most `timeout_ms`) until subscriber 0 holds `n_data` data-changed events; consumes nothing
+    pub async fn wait_data(&self, n_data: usize, timeout_ms: u64) -> bool {
+        let deadline = tokio::time::Instant::now() + Duration::from_millis(timeout_ms);
+        loop {
+            let notified = self.subs[0].notify.notified();
+            if self.count_data(0, 0) >= n_data {
+                return true;
+            }
+            if tokio::time::timeout_at(deadline, notified).await.is_err() {
+                return false;
+            }
+        }
+    }
+
     /// run a closure on the instance's reader connection
     pub async fn read<T: Send + 'static>(
         &self,
